@@ -67,11 +67,14 @@ HeadIs(pre, k, nm) == pre.pending # <<>> /\ Head(pre.pending) = M!Ev(k, nm)
 (* handled deletion of .ready, a restart or a kill until the next handled   *)
 (* CREATED/MODIFIED of .ready - the manager has to be inactive exactly then, *)
 (* and that next .ready event has to synchronise.                           *)
-ShadowNext(pre, ev, args) ==
+ShadowNext0(pre, ev, args) ==
   IF ev \in {"ManagerRestart", "NodeStart", "Crash"} THEN TRUE
   ELSE IF ev = "OnDeleted" /\ args[1] = M!READY THEN TRUE
   ELSE IF ev \in {"OnCreated", "OnModified"} /\ args[1] = M!READY THEN FALSE
   ELSE pre.sh
+(* a Meddled line is the delivery args[1](args[2]) with the monitor acting inside it *)
+ShadowNext(pre, ev, args) ==
+  IF ev = "Meddled" THEN ShadowNext0(pre, args[1], <<args[2]>>) ELSE ShadowNext0(pre, ev, args)
 WithSh(rec, b) == [x \in DOMAIN rec \cup {"sh"} |-> IF x = "sh" THEN b ELSE rec[x]]
 
 Kind(pre, ev, args) ==
